@@ -114,10 +114,12 @@ Theorem C08_t4_read_file_safe : forall c i, chan_ok c -> info_ok i ->
 Proof. exact read_with_any_safe. Qed.
 Print Assumptions C08_t4_read_file_safe.
 Theorem C08_t4_unrepaired_refuted :
-  t4_fresh (ex_card 256 ([16; 0] ++ repeat 7 100)) = Hang /\
-  fst (t4_read_any (mkChan (script_of_card 256 ([16; 0] ++ repeat 7 100)) [] [])) = Ok (NoNdef, Some (mkInfo 59 52 254 true true 2 [225; 4] 12)) /\
-  (exists d, t4_fresh (ex_card 16 ([0; 64] ++ repeat 7 100)) = Ok (Ndef true true 14 d) /\ len d = 64) /\
-  fst (t4_read_any (mkChan (script_of_card 16 ([0; 64] ++ repeat 7 100)) [] [])) = Ok (NoNdef, Some (mkInfo 59 52 14 true true 2 [225; 4] 12)).
+  fst (read_with_legacy (mkChan ([AOk [144; 0]; AOk [16; 0; 144; 0]] ++ repeat (AOk [144; 0]) 4200) [] []) (ex_info 256)) = Hang /\
+  fst (read_with_any (mkChan ([AOk [144; 0]; AOk [16; 0; 144; 0]] ++ repeat (AOk [144; 0]) 4200) [] []) (ex_info 256)) = Ok NoNdef /\
+  (exists d, fst (read_with_legacy (mkChan [AOk [144; 0]; AOk [0; 64; 144; 0]; AOk (repeat 7 59 ++ [144; 0]); AOk (repeat 7 5 ++ [144; 0])] [] [])
+                                   (ex_info 16)) = Ok (Ndef true true 14 d) /\ len d = 64) /\
+  fst (read_with_any (mkChan [AOk [144; 0]; AOk [0; 64; 144; 0]; AOk (repeat 7 59 ++ [144; 0]); AOk (repeat 7 5 ++ [144; 0])] [] [])
+                     (ex_info 16)) = Ok NoNdef.
 Proof. exact t4_read_legacy_refuted. Qed.
 Print Assumptions C08_t4_unrepaired_refuted.
 (* ---- the ISO-DEP layer with the WTX repair against ANY responder that uses at most W waiting time extensions /
@@ -197,7 +199,8 @@ Example C08_nonvacuous :
   (exists L, t1_read_any 17 ([1; 2; 3; 4; 5; 6; 7; 0; 225; 16; 14; 0; 3; 3; 208; 0; 0; 254] ++ repeat 0 102) = Ok (Some L) /\ l_val L = [208; 0; 0]) /\
   air_ok (mkAir [ex_rsp (ex_attr 4 1 10); ex_rsp (repeat 7 16)] [] []) /\
   fst (t3_read_with ex_idm (mkAir [ex_rsp (ex_attr 4 1 10); ex_rsp (repeat 7 16)] [] [])) = Ok (Ndef true true 16 (repeat 7 10)) /\
-  fst (t4_read_any (mkChan (script_of_card 256 [0; 3] ++ [AOk [208; 0; 0; 144; 0]]) [] [])) =
+  fst (t4_read_any (mkChan [AOk [144; 0]; AOk [144; 0]; AOk [0; 15; 144; 0]; AOk [32; 0; 59; 0; 52; 4; 6; 225; 4; 1; 0; 0; 0; 144; 0]; AOk [144; 0];
+                            AOk [0; 3; 144; 0]; AOk [208; 0; 0; 144; 0]] [] [])) =
     Ok (Ndef true true 254 [208; 0; 0], Some (mkInfo 59 52 254 true true 2 [225; 4] 12)) /\
   t4a_activate (ARx [2; 0]) 256 256 = Some (t4_params 0 4 256 256).
 Proof.
